@@ -1,83 +1,124 @@
-"""SimFS: an in-memory file system patched in at builtins.open / io.open / os.* for one virtual
-mount (/simfs/...).  It owns: prior file state, default text encoding, injected OSErrors at
-open / write / close, short writes, what becomes durable, and the stored bytes between write
-and read.  Everything outside the mount is passed through to the real functions."""
+"""SimFS: the file system seam under write() / parse_musicxml().
+
+The simulated mount is a REAL scratch directory (under /dev/shm, one per run process, removed by the
+zygote when the run ends), so every file API an implementation may use works on it - os.open, tempfile in
+the destination's directory, pathlib, os.replace, shutil.  On top of it builtins.open / io.open are
+intercepted for paths under the mount, which is where the simulator owns:
+
+  * the default text encoding when the caller passes none (utf-8, ascii, latin-1, cp1252),
+  * injected OSErrors at open / at the n-th write call / at close, short writes, ENOSPC,
+    read-only destinations, directories in the way,
+  * what is durable: bytes reach the real file at every write call (as with an unbuffered file); truncation
+    happens at open-for-write, exactly like O_TRUNC.
+
+Prior destination states and storage faults (dsim.diskfaults) rewrite the real files directly.
+Everything outside the mount is passed through untouched."""
 import builtins
 import errno
 import io
 import os
+import shutil
 
-MOUNT = '/simfs/'
+_real_open = builtins.open
+BASE = '/dev/shm' if os.path.isdir('/dev/shm') else '/tmp'
+
+
+def mount_for(pid):
+    return os.path.join(BASE, 'dsimfs-%d' % pid) + '/'
+
+
+# the mount of this process; forks of a run (fault cases, observations) keep their parent's mount
+MOUNT = mount_for(os.getpid())
+
+
+def set_mount_for_this_process():
+    global MOUNT
+    MOUNT = mount_for(os.getpid())
+    return MOUNT
+
+
+def cleanup(pid):
+    shutil.rmtree(mount_for(pid).rstrip('/'), ignore_errors=True)
+
+
+class _Files:
+    """Mapping facade over the real scratch directory: path -> bytes (durable content)."""
+
+    def __init__(self, fs):
+        self.fs = fs
+
+    def _ok(self, path):
+        return isinstance(path, str) and path.startswith(self.fs.mount)
+
+    def __contains__(self, path):
+        return self._ok(path) and os.path.isfile(path)
+
+    def get(self, path, default=None):
+        if path in self:
+            with _real_open(path, 'rb') as f:
+                return f.read()
+        return default
+
+    def __getitem__(self, path):
+        v = self.get(path)
+        if v is None:
+            raise KeyError(path)
+        return v
+
+    def __setitem__(self, path, data):
+        self.fs.ensure()
+        if os.path.isdir(path):
+            shutil.rmtree(path, ignore_errors=True)
+        with _real_open(path, 'wb') as f:
+            f.write(data)
+
+    def pop(self, path, default=None):
+        v = self.get(path, default)
+        if path in self:
+            os.remove(path)
+        return v
+
+    def append(self, path, data):
+        with _real_open(path, 'ab') as f:
+            f.write(data)
 
 
 class SimFS:
     def __init__(self, default_encoding='utf-8'):
-        self.files = {}        # path -> bytes (durable content)
-        self.dirs = {MOUNT.rstrip('/')}
+        self.mount = MOUNT
+        self.files = _Files(self)
         self.readonly = set()
         self.default_encoding = default_encoding
         self.faults = {}       # kind -> params (armed; consumed when they fire)
-        self.fired = []        # list of fault kinds that actually fired
-        self.trace = []        # (event, path, info)
-        self._fds = {}
-        self._next_fd = 100000
+        self.fired = []        # fault kinds that actually fired
+        self.trace = []
         self._orig = None
+        self._made = False
+
+    def ensure(self):
+        if not self._made:
+            os.makedirs(self.mount, exist_ok=True)
+            self._made = True
+
+    @property
+    def dirs(self):
+        return _Dirs(self)
 
     # ------------------------------------------------------------ patching
     def install(self):
         assert self._orig is None
-        self._orig = {
-            'builtins.open': builtins.open, 'io.open': io.open, 'os.replace': os.replace,
-            'os.rename': os.rename, 'os.remove': os.remove, 'os.unlink': os.unlink,
-            'os.path.exists': os.path.exists, 'os.fsync': os.fsync, 'os.path.isfile': os.path.isfile,
-        }
+        self.ensure()
+        self._orig = {'builtins.open': builtins.open, 'io.open': io.open}
         fs = self
 
         def _open(file, mode='r', buffering=-1, encoding=None, errors=None, newline=None, closefd=True, opener=None):
             p = fs._mine(file)
-            if p is None:
+            if p is None or opener is not None:
                 return fs._orig['builtins.open'](file, mode, buffering, encoding, errors, newline, closefd, opener)
             return fs.open(p, mode, encoding, errors, newline)
 
-        def _replace(src, dst, *a, **k):
-            ps, pd = fs._mine(src), fs._mine(dst)
-            if ps is None and pd is None:
-                return fs._orig['os.replace'](src, dst, *a, **k)
-            return fs.replace(ps, pd)
-
-        def _remove(path, *a, **k):
-            p = fs._mine(path)
-            if p is None:
-                return fs._orig['os.remove'](path, *a, **k)
-            return fs.remove(p)
-
-        def _exists(path):
-            p = fs._mine(path)
-            if p is None:
-                return fs._orig['os.path.exists'](path)
-            return p in fs.files or p in fs.dirs
-
-        def _isfile(path):
-            p = fs._mine(path)
-            if p is None:
-                return fs._orig['os.path.isfile'](path)
-            return p in fs.files
-
-        def _fsync(fd):
-            if fd in fs._fds:
-                fs._fds[fd].flush()
-                return None
-            return fs._orig['os.fsync'](fd)
-
         builtins.open = _open
         io.open = _open
-        os.replace = _replace
-        os.rename = _replace
-        os.remove = _remove
-        os.unlink = _remove
-        os.path.exists = _exists
-        os.path.isfile = _isfile
-        os.fsync = _fsync
 
     def uninstall(self):
         o = self._orig
@@ -85,24 +126,18 @@ class SimFS:
             return
         builtins.open = o['builtins.open']
         io.open = o['io.open']
-        os.replace = o['os.replace']
-        os.rename = o['os.rename']
-        os.remove = o['os.remove']
-        os.unlink = o['os.unlink']
-        os.path.exists = o['os.path.exists']
-        os.path.isfile = o['os.path.isfile']
-        os.fsync = o['os.fsync']
         self._orig = None
 
-    @staticmethod
-    def _mine(path):
+    def _mine(self, path):
+        if isinstance(path, int):
+            return None
         try:
             p = os.fspath(path)
         except TypeError:
             return None
         if isinstance(p, bytes):
             p = p.decode('utf-8', 'replace')
-        if isinstance(p, str) and p.startswith(MOUNT):
+        if isinstance(p, str) and p.startswith(self.mount):
             return p
         return None
 
@@ -123,16 +158,17 @@ class SimFS:
             del self.faults['fs.open_err']
             self._fire('fs.open_err')
             raise OSError(f.get('errno', errno.EIO), os.strerror(f.get('errno', errno.EIO)), path)
-        if path in self.dirs:
+        if os.path.isdir(path):
             self._fire('fs.is_dir')
             raise IsADirectoryError(errno.EISDIR, 'Is a directory', path)
         writing = m[0] in 'wax' or '+' in m
         if writing and path in self.readonly:
             self._fire('fs.readonly')
             raise PermissionError(errno.EACCES, 'Permission denied', path)
-        if m[0] == 'r' and path not in self.files:
+        exists = os.path.isfile(path)
+        if m[0] == 'r' and not exists:
             raise FileNotFoundError(errno.ENOENT, 'No such file or directory', path)
-        if m[0] == 'x' and path in self.files:
+        if m[0] == 'x' and exists:
             raise FileExistsError(errno.EEXIST, 'File exists', path)
         if not binary and encoding is None:
             encoding = self.default_encoding
@@ -140,37 +176,42 @@ class SimFS:
         if m[0] in 'wx':
             # open-for-write truncates immediately and durably (as a real O_TRUNC does)
             self.files[path] = b''
-        elif m[0] == 'a' and path not in self.files:
+        elif m[0] == 'a' and not exists:
             self.files[path] = b''
         return h
 
-    def replace(self, src, dst):
-        if src is None or dst is None:
-            raise OSError(errno.EXDEV, 'cross-device rename between SimFS and real fs')
-        if src not in self.files:
-            raise FileNotFoundError(errno.ENOENT, 'No such file or directory', src)
-        if dst in self.dirs:
-            raise IsADirectoryError(errno.EISDIR, 'Is a directory', dst)
-        self.files[dst] = self.files.pop(src)   # atomic
-        self.trace.append(('replace', src, dst))
-
-    def remove(self, path):
-        if path not in self.files:
-            raise FileNotFoundError(errno.ENOENT, 'No such file or directory', path)
-        del self.files[path]
-        self.trace.append(('remove', path))
-
     def state(self, path):
         """Durable state of a path as a JSON-able pair."""
-        if path in self.dirs:
+        if os.path.isdir(path):
             return ['dir']
-        if path not in self.files:
+        if not os.path.isfile(path):
             return ['absent']
         return ['file', self.files[path].hex()]
 
+    def listing(self):
+        """Names present in the mount (to notice stray temporary files)."""
+        try:
+            return sorted(os.listdir(self.mount))
+        except OSError:
+            return []
+
+
+class _Dirs:
+    def __init__(self, fs):
+        self.fs = fs
+
+    def add(self, path):
+        self.fs.ensure()
+        if os.path.isfile(path):
+            os.remove(path)
+        os.makedirs(path, exist_ok=True)
+
+    def __contains__(self, path):
+        return os.path.isdir(path)
+
 
 class SimHandle:
-    """File object for one open() on SimFS (text or binary)."""
+    """File object for one intercepted open() on the mount (text or binary)."""
 
     def __init__(self, fs, path, mode, binary, encoding, errors, newline):
         self.fs = fs
@@ -179,6 +220,7 @@ class SimHandle:
         self.binary = binary
         self.encoding = None if binary else encoding
         self.errors = errors
+        self.newline = newline
         self.closed = False
         self._nwrites = 0
         self._pos = 0
@@ -189,11 +231,9 @@ class SimHandle:
             if binary:
                 self._rbuf = data
             else:
-                # decoding errors surface at read time like a real TextIOWrapper (lazily); do it at first read
-                self._rbuf = None
+                self._rbuf = None          # decoding errors surface at read time, like a real TextIOWrapper
                 self._raw = data
 
-    # --- context manager
     def __enter__(self):
         return self
 
@@ -203,9 +243,7 @@ class SimHandle:
 
     def fileno(self):
         if self._fd is None:
-            self._fd = self.fs._next_fd
-            self.fs._next_fd += 1
-            self.fs._fds[self._fd] = self
+            self._fd = os.open(self.name, os.O_RDONLY)
         return self._fd
 
     def readable(self):
@@ -220,12 +258,15 @@ class SimHandle:
     def flush(self):
         return None
 
+    def isatty(self):
+        return False
+
     # --- reading
     def _ensure_text(self):
         if self._rbuf is None:
             text = self._raw.decode(self.encoding, self.errors)
-            # universal newlines
-            text = text.replace('\r\n', '\n').replace('\r', '\n')
+            if self.newline is None:
+                text = text.replace('\r\n', '\n').replace('\r', '\n')     # universal newlines
             self._rbuf = text
 
     def read(self, n=-1):
@@ -254,6 +295,9 @@ class SimHandle:
         self._pos = i + 1
         return out
 
+    def readlines(self):
+        return list(self)
+
     def __iter__(self):
         while True:
             line = self.readline()
@@ -281,23 +325,27 @@ class SimHandle:
         else:
             if not isinstance(data, str):
                 raise TypeError('write() argument must be str, not ' + type(data).__name__)
-            b = data.encode(self.encoding, self.errors)
+            text = data
+            if self.newline in ('\r\n', '\r'):
+                text = text.replace('\n', self.newline)
+            b = text.encode(self.encoding, self.errors)
+        have = len(fs.files.get(self.name, b''))
         f = fs.faults.get('fs.enospc')
         if f is not None:
-            room = f.get('room', 0) - len(fs.files.get(self.name, b''))
+            room = f.get('room', 0) - have
             if len(b) > room:
                 del fs.faults['fs.enospc']
                 fs._fire('fs.enospc')
-                fs.files[self.name] = fs.files.get(self.name, b'') + b[:max(room, 0)]
+                fs.files.append(self.name, b[:max(room, 0)])
                 raise OSError(errno.ENOSPC, os.strerror(errno.ENOSPC), self.name)
         f = fs.faults.get('fs.short_write')
         if f is not None and f.get('nth', 1) == self._nwrites:
             del fs.faults['fs.short_write']
             fs._fire('fs.short_write')
             keep = min(len(b), f.get('keep', len(b) // 2))
-            fs.files[self.name] = fs.files.get(self.name, b'') + b[:keep]
+            fs.files.append(self.name, b[:keep])
             raise OSError(errno.EIO, os.strerror(errno.EIO), self.name)
-        fs.files[self.name] = fs.files.get(self.name, b'') + b
+        fs.files.append(self.name, b)
         return len(data)
 
     def writelines(self, lines):
@@ -309,7 +357,10 @@ class SimHandle:
             return
         self.closed = True
         if self._fd is not None:
-            self.fs._fds.pop(self._fd, None)
+            try:
+                os.close(self._fd)
+            except OSError:
+                pass
         f = self.fs.faults.get('fs.close_err')
         if f is not None and self.writable():
             del self.fs.faults['fs.close_err']
